@@ -1,4 +1,6 @@
 import Wayfind.Proofs.Reachable
+import Wayfind.Proofs.Registry6
+import Wayfind.Proofs.ParseNonempty
 
 /-! # C04 — a template with optional groups behaves as the set of its expansions
 Router half: a successful `insert t d` acts on the tree exactly like inserting every expansion of `t`, one by one and
@@ -34,3 +36,16 @@ theorem C04_expansion_info (t : Bytes) (d cell : Nat) (e : Bytes × List Part) :
     (sharedInfo t d cell e).template = t ∧ (sharedInfo t d cell e).expanded = some e.1 ∧ (sharedInfo t d cell e).data = d ∧
     (inlineInfo t d e.1).template = t ∧ (inlineInfo t d e.1).expanded = none ∧ (inlineInfo t d e.1).data = d :=
   ⟨rfl, rfl, rfl, rfl, rfl, rfl⟩
+
+/-- **On live templates**: after a successful insert the live list gains exactly `(t, d, expansions of t)`; by C01 every
+match reports `t` with the matching expansion as `expanded` (or `none` for a single expansion), by C02/C06 exactly the
+paths some expansion fits are (newly) routed. -/
+theorem C04_insert_adds_the_expansions (env : Env) (r r' : Router) (L : List LiveT) (h : Live r L) (t : Bytes) (d : Nat)
+    (hi : r.insert t d = .ok r') (ts : List (Bytes × List Part)) (hp : parseTemplates t = .ok ts) (hd : DistinctExps ts) (path : Bytes) :
+    ((∃ e ∈ ts, ∃ vs, Fits env e.2 path vs) → (r'.search env path).isSome = true) ∧
+    ((¬ ∃ e ∈ ts, ∃ vs, Fits env e.2 path vs) → r'.search env path = r.search env path) :=
+  ⟨insert_routes env h hi ts hp hd path, insert_local env h hi ts hp hd path⟩
+
+/-- every accepted template has at least one expansion; the fuel of the expansion model never runs out -/
+theorem C04_at_least_one_expansion (t : Bytes) (ts : List (Bytes × List Part)) (hp : parseTemplates t = .ok ts) : ts ≠ [] :=
+  parse_nonempty hp
